@@ -79,7 +79,7 @@ type ETHScenario struct{}
 
 func (ETHScenario) Name() string { return "eth" }
 
-var ethMutations = []string{"none", "time_not_after_parent", "time_future", "gas_limit_high", "gas_limit_low", "gas_limit_min", "base_fee", "zero_difficulty",
+var ethMutations = []string{"none", "time_not_after_parent", "time_future", "gas_limit_high", "gas_limit_low", "gas_limit_min", "base_fee", "base_fee_of_parent", "zero_difficulty",
 	"gas_used_over", "unknown_parent", "wrong_number", "parent_hash_post"}
 
 func (ETHScenario) Generate(rng *rand.Rand, focus, tier string) kernel.Plan {
@@ -90,6 +90,7 @@ func (ETHScenario) Generate(rng *rand.Rand, focus, tier string) kernel.Plan {
 		"tp_min":      []int64{10, 600, 20160}[rng.Intn(3)],
 		"delay":       rng.Int63n(4),
 		"same_roots":  kernel.B2I(kernel.Chance(rng, 0.2)),
+		"basefee":     rng.Int63n(7),
 	}
 	var ops []kernel.Op
 	add := func(k string, a ...int64) { ops = append(ops, kernel.Op{K: k, A: a}) }
@@ -202,7 +203,7 @@ func newETHWorld(cfg map[string]int64, rec *kernel.Rec) (*ethWorld, error) {
 	}
 	g := &ethtypes.Header{ParentHash: common.Hash{7}, UncleHash: ethtypes.EmptyUncleHash, Root: sn.root, TxHash: ethtypes.EmptyRootHash,
 		ReceiptHash: ethtypes.EmptyRootHash, Difficulty: big.NewInt(2), Number: new(big.Int).SetUint64(start), GasLimit: 30_000_000, GasUsed: 15_000_000,
-		Time: uint64(w.now.Unix()), BaseFee: big.NewInt(1_000_000_000), Extra: []byte("tsim")}
+		Time: uint64(w.now.Unix()), BaseFee: big.NewInt([]int64{1_000_000_000, 1_000_000_000, 7, 8, 100, 1, 57}[int(cfg["basefee"])%7]), Extra: []byte("tsim")}
 	root := &ethNode{h: g, sn: sn, accepted: true, honest: true}
 	w.addNode(root)
 	w.head = root
@@ -400,6 +401,9 @@ func (w *ethWorld) opMut(op kernel.Op) {
 		h.GasUsed = 0
 	case "base_fee":
 		h.BaseFee = new(big.Int).Add(h.BaseFee, big.NewInt(1+int64(r.Intn(5))))
+	case "base_fee_of_parent":
+		// the parent's base fee carried over unchanged (only a rule violation when the rules demand a move)
+		h.BaseFee = new(big.Int).Set(p.h.BaseFee)
 	case "zero_difficulty":
 		h.Difficulty = big.NewInt(0)
 	case "gas_used_over":
